@@ -88,6 +88,9 @@ def batch_models(ctx, problems):
                     desc, len(seen["flushes"]), want_flush, " (events queued before the failure stay queued)" if want_flush and fails else ""))
             elif seen["flushes"] and seen["flushes"][0] is not b0:
                 problems["C05"].append("%s: the flush runs before the batching flag is restored" % desc)
+                problems["C06"].append("%s: the flush runs while the batching flag is still raised: a depends method that assigns two parameters during the flush has both events coalesced "
+                                       "(its dependants run once where a plain assignment runs them twice), and a dependent method that raises leaves the object batching for good -- its "
+                                       "depends(watch=True) methods never run again" % desc)
                 problems["C03"].append("%s: the flush runs while the batching flag is still raised: an assignment made by a callback of the flush is queued behind the remaining watchers instead of "
                                        "being dispatched before that callback returns (and a callback that raises leaves the object in batching mode: later assignments reach no watcher)" % desc)
             if bool(fails) != (o.kind == "raise"):
@@ -270,7 +273,7 @@ def edit_constant_model(ctx, problems):
 
 
 def model(ctx):
-    problems = {"C03": [], "C04": [], "C05": [], "C08": [], "C10": [], "C14": []}
+    problems = {"C03": [], "C04": [], "C05": [], "C08": [], "C10": [], "C14": [], "C06": []}
     try:
         n = batch_models(ctx, problems) + discard_model(ctx, problems) + syncing_model(ctx, problems) + edit_constant_model(ctx, problems)
     except Unsupported as e:
